@@ -294,7 +294,39 @@ def r10j(F):
 		good = [x for x in stores if not x[1]]
 		ok = bool(good)
 		out.append(Result('10.j', ok, ('ok:' if ok else 'forgotten:') + 'claimed-htlcs-filled@' + v, 'commitment_signed_update_monitor: the %s arm stores the list of claimed outbound HTLCs into the update (%s)%s' % (v, [x[2] for x in stores], '' if ok else ' - without it the monitor never learns the preimage: after a restart with a stale manager the payment is reported failed although it was claimed'), len(stores) + 1, where=F.where(fn, fu.line_of(m[v]))))
-	# all arms are filled from the same source
+	# ... and the monitor side records them whichever variant arrives: both arms of update_monitor hand the variant's claimed_htlcs on,
+	#     the legacy routine forwards its parameter, and update_holder_commitment_data inserts every entry into counterparty_fulfilled_htlcs
+	MONI = 'lightning::chain::channelmonitor::ChannelMonitorImpl::'
+	def is_claimed_param(fu2, e):
+		return any(1 <= l <= fu2.argc and 'SentHTLCId' in (fu2.locals[l].get('ty') or '') for l in expr_local_ids(e))
+	def arg_keys(fn, callee):
+		fu2 = F.func(fn); ex2 = Expr(fu2)
+		got = []
+		for b in sites_call(fu2, [MONI + callee]):
+			es = [ex2.of_operand(a) for a in fu2.blocks[b]['t'][2]['args']]
+			got.append((fu2.line_of(b), [('<claimed-param>' if is_claimed_param(fu2, e) else leaf_key(e)) for e in es]))
+		return got
+	for fn2, callee, how in ((MONI + 'update_monitor', 'provide_latest_holder_commitment_tx', 'field'), (MONI + 'update_monitor', 'update_holder_commitment_data', 'field'), (MONI + 'provide_latest_holder_commitment_tx', 'update_holder_commitment_data', 'param')):
+		sites = arg_keys(fn2, callee)
+		ok = bool(sites)
+		for line, keys in sites:
+			if how == 'field':
+				ok = ok and any(k.endswith('.claimed_htlcs') for k in keys)
+			else:
+				ok = ok and any(k == '<claimed-param>' for k in keys)
+		out.append(Result('10.j', ok, ('ok:' if ok else 'forgotten:') + 'claimed-htlcs-handed-on@%s->%s' % (fn2.rsplit('::', 1)[-1], callee), '%s passes the claimed HTLCs of the update to %s (%d call site(s))' % (fn2.rsplit('::', 1)[-1], callee, len(sites)), len(sites), where=F.where(fn2)))
+	uh = F.func(MONI + 'update_holder_commitment_data')
+	exu = Expr(uh)
+	ins = []
+	for b, ci in uh.calls():
+		if norm(ci.get('f') or '').endswith('HashMap::insert') and ci['args'] and leaf_key(exu.of_operand(ci['args'][0])).endswith('counterparty_fulfilled_htlcs'):
+			ins.append((b, [('<claimed-param>' if is_claimed_param(uh, exu.of_operand(a)) else leaf_key(exu.of_operand(a))) for a in ci['args'][1:]]))
+	ok = bool(ins) and all(all(k == '<claimed-param>' for k in ks) for b, ks in ins)
+	if ok:
+		# the insertion loop is entered unconditionally: nothing but the error returns lies between entry and the loop
+		heads = loop_heads(uh) | back_edge_heads(uh)
+		ok = all(any(b in uh.reach([h]) for h in heads) for b, ks in ins)
+	out.append(Result('10.j', ok, ('ok:' if ok else 'forgotten:') + 'claimed-htlcs-recorded', 'update_holder_commitment_data inserts every claimed HTLC (id -> preimage) into counterparty_fulfilled_htlcs (%s)' % [ks for b, ks in ins], len(ins), where=F.where(uh.name)))
 	return out
 
 RULES = [
